@@ -19,7 +19,10 @@ def replay_scripts(chk, binary, scripts, honest, tag):
             for s in scripts:
                 s["honest"] = honest
                 fh.write(json.dumps(s) + "\n")
-        rc, txt = vlib.run_test(binary, "TestVerifFragScripts", {"VERIF_IN": inp, "VERIF_OUT": out}, timeout=1800)
+        env = {"VERIF_IN": inp, "VERIF_OUT": out, "VERIF_SEED": chk.seed}
+        if len(scripts) <= 10:
+            env["VERIF_PACK_ALL"] = "1"
+        rc, txt = vlib.run_test(binary, "TestVerifFragScripts", env, timeout=2400)
         if rc != 0 or not os.path.exists(out):
             raise vlib.Inconclusive("fragment replay harness failed (%s): %s" % (tag, txt[-2000:]))
         rows = vlib.read_ndjson(out)
@@ -35,7 +38,8 @@ def replay_scripts(chk, binary, scripts, honest, tag):
                 if not honest and "panicked" in v:
                     chk.note("hostile script %d: %s (robustness, reported under C08)" % (r["script"], v))
                     continue
-                chk.violation({"kind": "reassembly", "mode": tag, "what": v.split(": ", 1)[-1], "script": sc})
+                chk.violation({"kind": "reassembly", "mode": tag + ("+packed" if r.get("packed") else ""),
+                               "what": ("[consecutive pushes share a record] " if r.get("packed") else "") + v.split(": ", 1)[-1], "script": sc})
             ndiv += len(r.get("diverge", []))
             for d in r.get("diverge", [])[:1]:
                 chk.note("DIVERGENCE model/code (%s script %d): %s" % (tag, r["script"], d))
@@ -66,7 +70,8 @@ def run(chk):
             chk.distinct.add(json.dumps(s["steps"][-1], sort_keys=True) + str(len(s["steps"])))
         summary, ndiv = replay_scripts(chk, binary, scripts, mode == "honest", mode)
         chk.parts["replay." + mode] = {"scripts": summary["scripts"], "flagged": summary["flagged"],
-                                       "messages_surfaced": summary["pops"], "model_code_divergences": ndiv}
+                                       "messages_surfaced": summary["pops"], "model_code_divergences": ndiv,
+                                       "scripts_replayed_again_with_packed_records": summary.get("packed", 0)}
         chk.sample({"mode": mode, "script": scripts[len(scripts) // 2]})
         if summary["pops"] == 0:
             raise vlib.Inconclusive("vacuous replay: no message was ever surfaced")
